@@ -479,6 +479,26 @@ Fixpoint tc_run (st : tc_state) (ops : list tc_op) : list (tc_state * tc_result)
   | o :: t => let '(st', r) := tc_step st o in (st', r) :: tc_run st' t
   end.
 
+(** An update is a two-step transition: the lifecycle callback (Init / Inherit of the new entity,
+    Close of a deleted one) runs while tc.mutex is held, and only then the new entity is published.
+    Requests do not take the mutex (Namespace.GetHandler reads the sync.Map): [tc_during] is what they
+    see while the callback runs.  Init / Inherit run BEFORE the new entity is stored - the previous
+    entity is still served -; Close of a deleted entity runs after it was removed from the map. *)
+Definition tc_during (st : tc_state) (o : tc_op) : tc_state :=
+  match o with
+  | TDelete c ns name =>
+      match slookup ns (ts_spaces st) with
+      | Some s =>
+          match slookup name (sp_get c s) with
+          | Some _ => {| ts_spaces := sset ns (sp_put c s (sdel name (sp_get c s))) (ts_spaces st);
+                         ts_next := ts_next st |}
+          | None => st
+          end
+      | None => st
+      end
+  | _ => st
+  end.
+
 (** the object an operation is about *)
 Definition tc_target (o : tc_op) : option (tc_cat * string * string) :=
   match o with
